@@ -24,7 +24,7 @@ from concurrent.futures import ThreadPoolExecutor
 
 HERE = os.path.dirname(os.path.abspath(__file__))
 VERIF = os.path.dirname(HERE)
-BIN = os.path.join(VERIF, "checker", "bin", "mpcverif")
+BIN = os.environ.get("MPCVERIF_BIN") or os.path.join(VERIF, "checker", "bin", "mpcverif")
 BENIGN = os.path.join(VERIF, "checker", "bin", "benign")
 ENV = dict(os.environ)
 ENV["PATH"] = "/opt/veriftools/go1.26.8/bin:" + ENV["PATH"]
